@@ -91,6 +91,11 @@ class C08(Prop):
             t = v[:, :, 2]
             t = t * np.sign(np.random.RandomState(1).randn(t.shape[0]))[:, None]      # axes are sign-free: randomise the sign
             res['p_taxis'] = [float(stats.kstest((t[:, i] + 1) / 2, 'uniform').pvalue) for i in range(3)]
+            # the whole frame must be Haar-uniform: the P and N axes too, and the six-vector components have zero mean
+            sg = np.sign(np.random.RandomState(2).randn(v.shape[0]))[:, None]
+            res['p_paxis'] = [float(stats.kstest((v[:, i, 0] * sg[:, 0] + 1) / 2, 'uniform').pvalue) for i in range(3)]
+            res['p_naxis'] = [float(stats.kstest((v[:, i, 1] * sg[:, 0] + 1) / 2, 'uniform').pvalue) for i in range(3)]
+            res['dc_mean_z'] = float(np.abs(dc.mean(axis=1) / (dc.std(axis=1) / np.sqrt(dc.shape[1]))).max())
             return res
         ns = case['n']
         draws = [np.array(d, dtype=float) for d in case['draws']]
@@ -179,8 +184,11 @@ class C08(Prop):
                 out.append(('uniformity', 'components are correlated: %r' % impl['max_corr'], None))
             if impl['dc_eig_err'] > 1e-9:
                 out.append(('dc-pattern', 'sampled double-couples do not have eigenvalues (1,0,-1)/sqrt2: deviation %r' % impl['dc_eig_err'], None))
-            if min(impl['p_taxis']) < 1e-5:
-                out.append(('orientation', 'double-couple tension axes are not uniform on the sphere: p-values %r' % impl['p_taxis'], None))
+            if min(impl['p_taxis'] + impl['p_paxis'] + impl['p_naxis']) < 1e-5:
+                out.append(('orientation', 'double-couple axes are not uniform on the sphere: p-values T %r P %r N %r' %
+                            (impl['p_taxis'], impl['p_paxis'], impl['p_naxis']), None))
+            if impl['dc_mean_z'] > 6.0:
+                out.append(('orientation', 'a six-vector component of the sampled double-couples has a non-zero mean (z = %.1f)' % impl['dc_mean_z'], None))
             return out
         np = self.np
         for j, col in enumerate(impl['cols']):
